@@ -278,6 +278,27 @@ pub proof fn lemma_delivered_each<OT, O: Vec1<OT>>(r: Option<O>, w: Option<Map<i
     }
 }
 
+// ---- the slice driver as its clients (unit `fdiff`) may assume it: tea-core view.rs `rolling_custom`.  The Vec / ndarray fast paths are
+// proved against this contract in unit `drvo` from `rolling_custom_to` (vec_rolling_custom, nd_rolling_custom); the default
+// iterator-form body (rolling_custom_iter: a zip of two ranges through a lazy map) stays assumed (A-ITER).
+pub open spec fn outs_slice<T, OT>(h: Seq<CallSlice<T, OT>>) -> Seq<OT> { Seq::new(h.len(), |i: int| h[i].out) }
+pub trait SliceDriver<T>: Vec1View<T> {
+    fn rolling_custom<O: Vec1<OT>, OT, F: SliceFn<Self::Slice, T, OT>>(&self, window: usize, f: &mut F, out: Option<&mut O::Buf>) -> (r: Option<O>)
+        requires
+            old(f).hist().len() == 0,
+            old(f).inv(),
+            self.supports_slice(),
+            forall|s: &Self::Slice| #[trigger] F::sview(s) == Self::slice_view(s),
+            out matches Some(o) ==> buf_fresh(o, self.view().len()),
+            window >= 1,
+        ensures
+            final(f).inv(),
+            final(f).cfg() == old(f).cfg(),
+            trace_slice(final(f).hist(), self.view(), wclamp(window, self.view().len())),
+            delivered(r, match out { Some(o) => Some(final(o).written()), None => None }, outs_slice(final(f).hist()));
+}
+
+
 pub trait RollingDrivers<T>: Vec1View<T> {
     // tea-core view.rs rolling_apply: body proved in unit `drv` against exactly this contract
     fn rolling_apply<O: Vec1<OT>, OT, F: RollingFn<T, OT>>(&self, window: usize, f: &mut F, out: Option<&mut O::Buf>) -> (r: Option<O>)
